@@ -641,11 +641,11 @@ pub fn families(id: &str, quick: bool) -> Vec<Family> {
                     f.extend(indep_family(&format!("{nm} T{{3,4,7}} J{{0,2}} C=1"), Some(bw), vec![(0, 3), (1, 2)],
                         [3u64, 4, 7].iter().flat_map(|t| [0u64, 2].into_iter().map(move |j| (ArrSpec::Sporadic { t: *t, j }, 1u64))).collect(), sups.clone()));
                 } else {
-                    let mut lp = indep_family(&format!("{nm} long periods, bursts, WCET<=3 (state cap 400k)"), Some(bw), vec![(0, 3), (1, 2)],
-                        vec![(6u64, 0u64, 3u64), (6, 0, 1), (17, 0, 1), (12, 16, 2), (12, 0, 2), (9, 9, 1), (20, 3, 3), (5, 0, 2)].into_iter().map(|(t, j, c)| (ArrSpec::Sporadic { t, j }, c)).collect(),
-                        vec![SupplySpec::Dedicated, SupplySpec::Constrained { q: 2, dl: 2, p: 3 }]);
+                    let mut lp = indep_family(&format!("{nm} long periods, bursts, WCET<=3 (state cap 150k)"), Some(bw), vec![(0, 3), (1, 2)],
+                        vec![(6u64, 0u64, 3u64), (6, 0, 1), (17, 0, 1), (12, 16, 2), (12, 0, 2), (9, 9, 1), (20, 3, 3)].into_iter().map(|(t, j, c)| (ArrSpec::Sporadic { t, j }, c)).collect(),
+                        vec![SupplySpec::Dedicated]);
                     for x in lp.iter_mut() {
-                        x.cap = 400_000;
+                        x.cap = 150_000;
                     }
                     f.extend(lp);
                     f.extend(indep_family(&format!("{nm} T{{3,4,7}} J{{0,2}} C=1"), Some(bw), vec![(0, 3), (1, 2)],
